@@ -168,12 +168,14 @@ impl<'a> V<'a> {
         }
     }
 
-    /// a literal at a custom scalar position: any literal is accepted; (graphql-js's TypeInfo) the items
-    /// of a list literal are located at the scalar type itself, the fields of an object literal nowhere
+    /// a literal at a custom scalar position: any literal is accepted; only a variable given DIRECTLY as the value
+    /// is located at the scalar type, the items of a list literal and the fields of an object literal nowhere
     fn custom_scalar_literal(&mut self, scalar: &Type, v: &Value) {
         match v {
             Value::Variable(n) => self.cur.usages.push(Usage { name: n.to_string(), loc: Some((nullable(scalar), false)), nested: true, in_scalar_object: false }),
-            Value::List(l) => for x in l { self.custom_scalar_literal(scalar, x) },
+            // a list literal is as opaque as an object literal: any item is accepted (`[null]`, `[$v]` with `$v` of any
+            // declared type); variables inside must be defined, object literals inside have unique fields
+            Value::List(l) => for x in l { self.use_only_in(x, false) },
             Value::Object(o) => { self.unique_fields(o, true); for (_, x) in o { self.use_only_in(x, true) } }
             _ => {}
         }
